@@ -278,6 +278,13 @@ func (self *PathNode) scanChildren(p *binary.BinaryProtocol, recurse bool, opts 
 	case proto.MESSAGE:
 		messageDesc := desc.Message()
 		start := p.Read
+		if messageLen < 0 || start+messageLen > len(p.Buf) {
+			return wrapError(meta.ErrRead, "PathNode.scanChildren: message exceeds the buffer.", nil)
+		}
+		// the fields of this message must not read beyond its end: an unpacked list or map at the end of the message
+		// must not go on with the fields that follow the message in its parent and carry the same field number
+		buf := p.Buf
+		p.Buf = buf[:start+messageLen]
 		// range all fields formats: [FieldTag(L)V][FieldTag(L)V][FieldTag(L)V]...
 		for p.Read < start+messageLen {
 			fieldNumber, wireType, tagLen, tagErr := p.ConsumeTag()
@@ -298,6 +305,7 @@ func (self *PathNode) scanChildren(p *binary.BinaryProtocol, recurse bool, opts 
 			}
 			v.Path = NewPathFieldId(fieldNumber)
 		}
+		p.Buf = buf
 	case proto.LIST:
 		// range all elements
 		// FieldDesc := (*desc).(proto.FieldDescriptor)
@@ -498,7 +506,7 @@ func (self *PathNode) handleChild(in *[]PathNode, lp *int, cp *int, p *binary.Bi
 
 	if tt.IsComplex() {
 		if recurse {
-			p.Buf = p.Buf[start:]
+			p.Buf = p.Buf[start:p.Read] // the children lie inside the bytes of this node
 			p.Read = 0
 			parentDesc := desc
 			messageLen := 0
